@@ -1,7 +1,7 @@
-\* alternative design with an atomic store (temp file + rename): also satisfies every invariant; not what the code does
+\* negative control: the lemma LookupFindsOwnStore fails when the lookup hashes the unresolved halo
 CONSTANTS
   KeyFields = {"shape", "z", "profiles", "domain", "levels", "modes", "meas_pt", "bg", "analytic", "halo", "precision"}
-  HaloAtGet = "resolved"
+  HaloAtGet = "raw"
   AtomicPut = TRUE
   CatchLoad = TRUE
   MaxCrashes = 2
@@ -9,9 +9,4 @@ CONSTANTS
 INIT Init
 NEXT Next
 CHECK_DEADLOCK FALSE
-INVARIANT Transparent
-INVARIANT NeverFatal
-INVARIANT Effective
-INVARIANT StoreSound
-INVARIANT KeyDeterminesResult
 INVARIANT LookupFindsOwnStore
